@@ -118,6 +118,23 @@ static void life_case(uint64_t idx)
         }
         VH_COUNT("init_cleanup_loop_rounds", k);
     }
+    if (!wipe_mode && idx % 40 == 23) {
+        /* several hundred objects alive at once, each keyed differently; every one must still produce its own stream */
+        enum { NOBJ = 300 };
+        static vh_handle HS[NOBJ]; static uint8_t KS[NOBJ][16];
+        const vh_cipher *c = &vh_ciphers[vh_below(&r, CIPH_N)]; int k, bad = -1; uint8_t z[16] = {0}, o1[16], e1[16], cb[16] = {0};
+        vh_set_crash_key("C15:many-objects-alive");
+        am_mark(60, 0); vh_set_cap((int)vh_below(&r, (uint32_t)maxbe[c->id] + 1));
+        for (k = 0; k < NOBJ; ++k) { memset(&HS[k], 0, sizeof(HS[k])); vh_rand_bytes(&r, KS[k], 16); vh_call_begin("init(many)"); c->ctr_init(&HS[k]); c->ctr_set_key(&HS[k], KS[k], 16, 7); vh_call_end(); }
+        for (k = NOBJ - 1; k >= 0; --k) {
+            vh_call_begin("encrypt(many)"); c->ctr_encrypt(o1, z, c->bb, &HS[k]); vh_call_end();
+            if (c->id == CIPH_MANTIS) ref_mantis_encrypt(7, KS[k], NULL, cb, e1); else ref_skinny_key_crypt(c->bb, KS[k], 16, 0, cb, e1);
+            if (memcmp(o1, e1, c->bb) && bad < 0) bad = k;
+        }
+        for (k = 0; k < NOBJ; ++k) { vh_call_begin("cleanup(many)"); c->ctr_cleanup(&HS[k]); vh_call_end(); }
+        VH_COUNT("many_objects_alive_rounds", 1); VH_MAXC("max_objects_alive_at_once", NOBJ);
+        if (bad >= 0) { snprintf(d, sizeof(d), "{\"objects_alive\":%d,\"first_wrong_object\":%d,\"cipher\":\"%s\"}", NOBJ, bad, c->name); snprintf(nm, sizeof(nm), "C15:%s:object-affected-by-other-live-objects", c->name); viol(nm, idx, d); }
+    }
     /* ---------- offline check of the allocator event log ---------- */
     {
         const am_event *ev = am_events(); int nev = am_nevents(), e;
